@@ -6,9 +6,9 @@
 package c10
 
 import (
-	"regexp"
 	"context"
 	"fmt"
+	"regexp"
 	"runtime"
 	"strings"
 	"sync"
@@ -30,7 +30,7 @@ type tokenKey struct{}
 
 // counting hooks
 var (
-	timeCalls, strCalls, fldCalls int
+	timeCalls, strCalls, fldCalls       int
 	lastTimeCtx, lastStrCtx, lastFldCtx context.Context
 	hookSeq                             int
 )
@@ -96,6 +96,10 @@ type op struct {
 	Level  int // index into levels (Record)
 	Ctx    int // 0 valued Background, 1 derived (WithCancel), 2 valued TODO, 3 nil
 	Sink   int // config: 0 recorder+console, 1 + rolling file appender, 2 + file appender
+	// RefFloor (config): 0 = the appender references take everything the logger lets through;
+	// otherwise an index into levels: every reference carries level=<that name>, so the logger may
+	// enable levels none of its references takes. "Enabled" is a matter of the serving logger.
+	RefFloor int
 }
 
 func (o op) String() string {
@@ -125,7 +129,7 @@ func genOps(t *rapid.T) []op {
 		case "config":
 			ops = append(ops, op{K: "config", Logger: rapid.SampledFrom([]string{"sync", "async", "builtin"}).Draw(t, "logger"),
 				Range: rapid.IntRange(0, len(ranges)-1).Draw(t, "range"), Layout: rapid.SampledFrom([]string{"TextLayout", "JSONLayout"}).Draw(t, "layout"),
-				Sink: rapid.SampledFrom([]int{1, 0, 2}).Draw(t, "sink")})
+				Sink: rapid.SampledFrom([]int{1, 0, 2}).Draw(t, "sink"), RefFloor: rapid.SampledFrom([]int{0, 0, 3, 4, 2}).Draw(t, "refFloor")})
 		default:
 			o := op{K: "call", Entry: rapid.SampledFrom(entries).Draw(t, "entry"), Ctx: rapid.SampledFrom([]int{0, 0, 1, 2, 3}).Draw(t, "ctx")}
 			if o.Entry == "Record" {
@@ -170,6 +174,7 @@ func TestC10_Hooks(t *testing.T) {
 		set := [3]bool{}
 		logger := "builtin"
 		lo, hi := 0, 999
+		refLo := 0
 		layout := "TextLayout"
 		delivered := 0
 		sawEnabled, sawDisabled := false, false
@@ -202,6 +207,7 @@ func TestC10_Hooks(t *testing.T) {
 				console.Reset()
 				delivered = 0
 				logger, layout = o.Logger, o.Layout
+				refLo = 0
 				if o.Logger == "builtin" {
 					lo, hi = 0, 999
 					continue
@@ -217,6 +223,14 @@ func TestC10_Hooks(t *testing.T) {
 				case 2:
 					m["appender.fil.type"], m["appender.fil.fileDir"], m["appender.fil.fileName"] = "File", scratch, "c10.log"
 					m["logger.l.appenderRef[2].ref"] = "fil"
+				}
+				if o.RefFloor > 0 {
+					refLo = levels[o.RefFloor].code
+					for k := 0; k < 3; k++ {
+						if _, ok := m[fmt.Sprintf("logger.l.appenderRef[%d].ref", k)]; ok {
+							m[fmt.Sprintf("logger.l.appenderRef[%d].level", k)] = levels[o.RefFloor].name
+						}
+					}
 				}
 				if o.Logger == "sync" {
 					m["logger.l.type"] = "Logger"
@@ -301,6 +315,26 @@ func TestC10_Hooks(t *testing.T) {
 					}
 					if console.Len() != conBefore {
 						t.Fatalf("VERIF-VIOLATION C10: a disabled call wrote to the console\n%s", where)
+					}
+					continue
+				}
+				if code < refLo {
+					// enabled for the serving logger, taken by none of its references: the generator
+					// has run exactly once all the same (the hooks at most once each), nothing is written
+					vk.Class("enabled-for-logger-but-no-reference-takes-it")
+					if lazy && genCalls != 1 {
+						t.Fatalf("VERIF-VIOLATION C10: the level is enabled for the serving logger (its references start at level code %s), the lazy field generator ran %d times, expected exactly once\n%s", fmt.Sprint(refLo), genCalls, where)
+					}
+					if timeCalls-t0 > 1 || strCalls-s0 > 1 || fldCalls-f0 > 1 {
+						t.Fatalf("VERIF-VIOLATION C10: a hook ran more than once for one call (time %d, string %d, fields %d)\n%s", timeCalls-t0, strCalls-s0, fldCalls-f0, where)
+					}
+					if logger == "sync" {
+						if r := vk.Rec("rec"); r != nil && r.Len() != delivered {
+							t.Fatalf("VERIF-VIOLATION C10: an event below every reference's range reached the appender\n%s", where)
+						}
+						if console.Len() != conBefore {
+							t.Fatalf("VERIF-VIOLATION C10: an event below every reference's range was written to the console\n%s", where)
+						}
 					}
 					continue
 				}
@@ -406,7 +440,6 @@ func TestC10_Hooks(t *testing.T) {
 		vk.Sample(map[string]any{"sequence": strings.Join(seq, " ")})
 	})
 }
-
 
 // TestC10_Concurrent: many goroutines emit at the same time while a hook is deliberately slow.
 // Every emitted event must still have had each hook invoked exactly once with its own context.
